@@ -159,6 +159,11 @@ func (fc *FC) isIncrement(in ssa.Instruction) bool {
 	if !ok {
 		return false
 	}
+	// value-based for slice elements: xs[i] = xs[i] + 1 in any spelling (x++, x += 1, x = 1 + x)
+	if ia, isIA := st.Addr.(*ssa.IndexAddr); isIA {
+		cur := fc.X.S.MakeFn("idx", fc.Val(ia.X), fc.Val(ia.Index))
+		return fc.Val(st.Val).Equal(cur.Add(fc.X.S.Int(1)))
+	}
 	bo, ok := st.Val.(*ssa.BinOp)
 	if !ok || bo.Op.String() != "+" {
 		return false
